@@ -54,6 +54,14 @@ TermsNL(negs, e, r, role, g, i) ==
        \o (IF negs[i] THEN <<P("NOT")>> ELSE <<>>)
        \o <<Id(e, r, role, g, negs[i])>>
        \o TermsNL(negs, e, r, role, g, i + 1)
+\* layout 7: a folded line (NEWLINE + blank) wherever a blank may stand inside the brackets of the architecture list
+RECURSIVE TermsFold(_,_,_,_,_,_)
+TermsFold(negs, e, r, role, g, i) ==
+  IF i > Len(negs) THEN <<>>
+  ELSE (IF i > 1 THEN <<NLt, W>> ELSE <<>>)
+       \o (IF negs[i] THEN <<P("NOT")>> ELSE <<>>)
+       \o <<Id(e, r, role, g, negs[i])>>
+       \o TermsFold(negs, e, r, role, g, i + 1)
 RECURSIVE Groups(_,_,_,_,_)
 Groups(gs, e, r, s, g) ==
   IF g > Len(gs) THEN <<>>
@@ -71,7 +79,9 @@ RelToks(v, e, r, s) ==
                ELSE <<Id(e, r, "ver", 0, FALSE)>>)
            \o In(s) \o <<P("R_PARENS")>>)
   \o (IF ~v.hasArch THEN <<>>
-      ELSE Opt(s) \o <<Tk("L_BRACKET", e, r, "lb", 0, FALSE)>> \o In(s) \o Terms(v.archs, e, r, "arch", 0, 1) \o In(s) \o <<P("R_BRACKET")>>)
+      ELSE Opt(s) \o <<Tk("L_BRACKET", e, r, "lb", 0, FALSE)>> \o (IF s = 7 THEN <<NLt, W>> ELSE In(s))
+           \o (IF s = 7 THEN TermsFold(v.archs, e, r, "arch", 0, 1) ELSE Terms(v.archs, e, r, "arch", 0, 1))
+           \o (IF s = 7 THEN <<NLt, W>> ELSE In(s)) \o <<P("R_BRACKET")>>)
   \o Groups(v.profs, e, r, s, 1)
 
 RV(aq, op, ep, ha, archs, profs) == [aq |-> aq, op |-> op, epoch |-> ep, hasArch |-> ha, archs |-> archs, profs |-> profs]
@@ -194,6 +204,8 @@ MCInit ==
        InitWith([MkCase(Field(<<E1(v), E1(Simple)>>, 6, DefC, DefP, <<>>, FALSE, <<>>), <<E1(v), E1(Simple)>>, FALSE) EXCEPT !.nlin = TRUE])
   \/ \E v \in { x \in BigV : \E g \in 1..Len(x.profs) : Len(x.profs[g]) >= 2 } :
        InitWith([MkCase(Field(<<E1(v)>>, 5, DefC, DefP, <<>>, FALSE, <<>>), <<E1(v)>>, FALSE) EXCEPT !.nlin = TRUE])
+  \/ \E v \in { x \in GoodV : x.hasArch } :
+       InitWith([MkCase(Field(<<E1(v), E1(Simple)>>, 7, DefC, DefP, <<>>, FALSE, <<>>), <<E1(v), E1(Simple)>>, FALSE) EXCEPT !.nlin = TRUE])
   \* alternatives and several entries, each separator layout
   \/ \E v \in FewV, w \in FewV, cs \in CommaStyles, ps \in PipeStyles, tc \in BOOLEAN :
        LET items == <<E2(v, w), E1(w)>> IN
